@@ -47,12 +47,18 @@ def run_companion(run, keys, functions):
     for key in keys:
         if key in CORPORA:
             corpus = CORPORA[key](run.tier, run.seed)
-        elif key in registry and not getattr(registry[key], "opaque", None):
-            corpus = contract_rt.auto_corpus(registry[key])  # (contracts over opaque calls have no CPython counterpart of their log)
+        elif key in registry:
+            corpus = contract_rt.auto_corpus(registry[key])
         else:
             continue
+        # contracts over opaque calls have no CPython counterpart of their effect log: for them the engine is not compared, only the clauses that speak about
+        # arguments and result are evaluated on the real composite
+        opq = getattr(registry[key], "opaque", None) or {}
+        use_engine = key in CORPORA or not opq
+        if not use_engine and (any(sp.get("effect") for sp in opq.values()) or any(n in opq for n in ("open", "print", "emit.file", ".write", ".read"))):
+            continue  # contracts about file-system effects are never run for real on made-up arguments (their bounded stand-in is the generated-project harness)
         n = fails = cross = 0
-        for rec in contract_rt.run_corpus(key, corpus):
+        for rec in contract_rt.run_corpus(key, corpus, use_engine=use_engine):
             if rec["case"] is None:
                 continue
             n += 1
